@@ -6,7 +6,7 @@
 (*                                                                         *)
 (* Events (recorded by harness/tree.go from route.Tree / flamego.Flame):   *)
 (*  reset   {case}                                                         *)
-(*  AddRoute{m, r, accepted}            one method registration            *)
+(*  AddRoute{m, r, accepted, skipped, call, ck}   one method registration *)
 (*  Headers {regs, hdr}                 Route.Headers on the handle that   *)
 (*                                      the call creating regs returned    *)
 (*  Name    {reg, name, panicked}                                          *)
@@ -50,7 +50,7 @@ AddVerdict(e) ==
 TAddRoute == /\ IsEv("AddRoute")
              /\ LET e == Tr[l] IN
                 /\ Verdict(AddVerdict(e))
-                /\ H' = Append(H, [m |-> e.m, r |-> e.r, ok |-> e.accepted, hdr |-> <<>>, call |-> e.call])
+                /\ H' = Append(H, [m |-> e.m, r |-> e.r, ok |-> e.accepted, hdr |-> <<>>, call |-> e.call, ck |-> e.ck])
                 /\ UNCHANGED names
 
 (* ---------------------------- Headers -------------------------------- *)
@@ -82,7 +82,8 @@ WinnerWithG(m, p, orc, Elig(_, _), G) ==
 WinnerWith(m, p, orc, Elig(_, _)) == WinnerWithG(m, p, orc, Elig, NoGhosts)
 \* registrations of the same Flame-level call (Routes / Any / Get under AutoHead) share `call`;
 \* the handle returned to the user holds the leaf of the LAST method only (D15)
-LastOfCall(i) == \A q \in 1..Len(H) : H[q].call = H[i].call => q <= i
+\* (D15 concerns Routes() only: the handle of Any() holds the leaves of all nine methods)
+LastOfCall(i) == H[i].ck # "routes" \/ \A q \in 1..Len(H) : H[q].call = H[i].call => q <= i
 
 ServeVerdict(e) ==
   LET orc == [adm |-> SeqToSet(e.adm), splits |-> SeqToSet(e.splits)]
@@ -101,8 +102,9 @@ ServeVerdict(e) ==
       fastHit == { i \in Acc(H, e.m) : /\ RouteText(H[i].r) = e.raw /\ H[i].hdr = <<>>
                                        /\ \A j \in 1..Len(H[i].r.segs) : H[i].r.segs[j].k = "S" }
       \* D3: an expression with its own capture group shifts the sub-match indexes
-      \* (the route layer P dispatches to contains such an expression; the real outcome then is anything)
-      grp == w.reg # 0 /\ \E j \in 1..Len(H[w.reg].r.segs) : H[w.reg].r.segs[j].k = "R" /\ H[w.reg].r.segs[j].grp
+      \* (the route layer P dispatches to - or would dispatch to under another open finding - contains such an
+      \* expression; the real outcome then is anything)
+      grpOf(v) == v.reg # 0 /\ \E j \in 1..Len(H[v.reg].r.segs) : H[v.reg].r.segs[j].k = "R" /\ H[v.reg].r.segs[j].grp
       \* D5 (inverse law only): a bind-parameter list renders only its first name
       multi(v) == v.reg # 0 /\ \E j \in 1..Len(H[v.reg].r.segs) : \E q \in 1..Len(H[v.reg].r.segs[j].els) : H[v.reg].r.segs[j].els[q].g = 2
       goodNoRb(v) == /\ v.reg = e.reg /\ v.reg # 0 /\ P_ParamsOK(H, v, e.p, e.dec, e.decok, e.params, orc)
@@ -119,7 +121,8 @@ ServeVerdict(e) ==
      ELSE IF "D16" \in Dev /\ e.reg \in fastHit /\ ~IsOptional(H[e.reg].r) /\ w.reg # 0 /\ w.reg < e.reg
                            /\ IsOptional(H[w.reg].r) /\ ~w.short THEN "D16"
      ELSE IF "D11" \in Dev /\ DOMAIN Ghosts(e.m) # {} /\ w11 # w /\ goodX(w11) THEN "D11"
-     ELSE IF "D3" \in Dev /\ grp THEN "D3"
+     ELSE IF "D3" \in Dev /\ (grpOf(w) \/ ("D6" \in Dev /\ grpOf(w6)) \/ ("D15" \in Dev /\ grpOf(w15))
+                           \/ ("D11" \in Dev /\ DOMAIN Ghosts(e.m) # {} /\ grpOf(w11))) THEN "D3"
      ELSE "bad"
 TServe == /\ IsEv("Serve") /\ Verdict(ServeVerdict(Tr[l])) /\ UNCHANGED <<H, names>>
 
